@@ -14,9 +14,11 @@ Reader specification: `Spec/ScalarRead.lean` — my formalisation of how the YAM
 reads one scalar; it is *validated* against the real parser by the differential run, not verified.
 All theorems are therefore "relative to the reader formalisation".
 
-Status: the property is FALSE for the code as it is. The (T) theorems below are the parts that hold for all
-strings; `plain_roundtrip_partial` needs excluding hypotheses, and each excluded class has an (F) theorem
-with a concrete witness on which model and implementation agree (see the differential and the oracle).
+Status (after the repairs b4ece9d, 1fdb06b, 832e31b, a252cf9 in /repo): the string clauses hold in the
+modelled positions — `plain_roundtrip`, `plain_meaning`, `literal_roundtrip`, `auto_folded_roundtrip` are
+stated without excluding hypotheses; the former counterexamples are regression examples now. One residue
+remains: with `yaml_12: true` the YAML 1.1 boolean words are written plain and the crate's default
+(non-strict) reader takes them for booleans (`yaml12_bool_word_counterexample`).
 -/
 namespace SaphyrVerif.Props.C12
 open SaphyrVerif SaphyrVerif.SerScalar SaphyrVerif.Spec.Read SaphyrVerif.Scalars SaphyrVerif.Lemmas.C12
@@ -38,7 +40,7 @@ theorem dq_roundtrip (s : List Char) : readDq (writeQuoted s) = some (s, []) := 
 
 /-- (T) the key sink's quoted form (its own, smaller escape table: `\\ \" \n \r \t \uXXXX`) reads back. -/
 theorem key_sink_roundtrip (s : List Char) (y : Bool)
-    (h : (isPlainSafe s && isPlainValueSafe s y true) = false) :
+    (h : (isPlainSafe s && isPlainValueSafe s y true && !isUnsafePlainShape s) = false) :
     readDq (keySinkStr s y) = some (s, []) := by
   unfold keySinkStr
   rw [h]
@@ -84,184 +86,184 @@ def plainMeaning (key : Bool) (s : List Char) : Meaning :=
   else match resolve s with
     | .str => .str | .null => .null | .bool => .bool | .int => .int | .float => .float
 
-/-- The property for plain style at full strength: whenever the writer decides *plain*, the document
-reads back as the same string and still means a string. FALSE for the code as it is — see the (F)
-theorems; kept as the statement to aim for. -/
-def plain_roundtrip_Full : Prop :=
-  ∀ (o : Opts) (p : SerScalar.Pos) (s : List Char), writerPlain o p s →
-    roundTrip o p s = some (.plain, s) ∧ plainMeaning (isKeyPos p) s = .str
-
-/-- (T, partial) scan level, every context: a string accepted by `is_plain_value_safe`, with no trailing
-blank (and, in flow context, not ending in blank + `-`), in front of any terminator (`term`: end of
-line, `: ` for keys, a flow indicator) starts a plain scalar and is consumed exactly. -/
-theorem plain_scan_roundtrip_partial (s term : List Char) (y flow col0 : Bool)
-    (h : isPlainValueSafe s y flow = true) (ht : isTerm flow term = true)
-    (hblank : s.getLast? ≠ some ' ')
-    (hdash : flow = true → ¬ [' ', '-'] <:+ s)
+/-- (T, scan level, every context) a string accepted by `is_plain_value_safe` and not of an unsafe
+plain shape, in front of any terminator (`term`: end of line, `: ` for keys, a flow indicator), starts a
+plain scalar and is consumed exactly. (`hmark` is discharged at document level by `plain_roundtrip`.) -/
+theorem plain_scan_roundtrip (s term : List Char) (y flow col0 : Bool)
+    (h : isPlainValueSafe s y flow = true) (hu : isUnsafePlainShape s = false) (ht : isTerm flow term = true)
     (hmark : col0 = true → isDocMarker (s ++ term) = false) :
     startKind flow col0 (s ++ term) = .plain ∧ readPlain flow (s ++ term) = some (s, term) := by
-  obtain ⟨_, hhead, hcs, hec, hsafe⟩ := pvs_unfold h
+  obtain ⟨_, hhead, hcs, hec, hsafe, hdash⟩ := pvs_unfold h
+  obtain ⟨hblank, _, _⟩ := unsafe_shape_facts hu
   have hne : s ≠ [] := by intro e; subst e; simp [headRejects] at hhead
   refine ⟨plain_start flow col0 s term hsafe hhead hmark, ?_⟩
-  have := plain_scan_run flow term ht s [] [] hsafe (colonOk_of s hcs (last_not_colon hec)) hdash
+  have := plain_scan_run flow term ht s [] [] hsafe (colonOk_of s hcs (last_not_colon hec))
+    (fun hf => not_suffix_of_endsWithBlankDash (hdash hf))
     (fun _ h => absurd rfl h) (fun e => absurd e hne) hblank
   simpa [readPlain] using this
 
-/-- (T, partial) never null, never a boolean: a string the value test accepts (YAML 1.1 mode) does not
-resolve to null or bool. (It CAN resolve to a number: see `number_lookalike_counterexample`.) -/
-theorem plain_not_null_bool (s : List Char) (flow : Bool) (h : isPlainValueSafe s false flow = true) :
-    resolve s ≠ .null ∧ resolve s ≠ .bool := by
-  obtain ⟨hamb, _, _, _, _⟩ := pvs_unfold h
-  unfold isAmbiguousValue at hamb
-  by_cases h1 : isAmbiguous s = true
-  · rw [if_pos h1] at hamb; cases hamb
-  rw [if_neg h1] at hamb
-  by_cases h2 : (!false && (parseYaml11Bool s).isSome) = true
-  · rw [if_pos h2] at hamb; cases hamb
-  have hb : (parseYaml11Bool s).isSome = false := by simpa using h2
-  have hn : scalarIsNullish s .plain = false := by
-    unfold isAmbiguous at h1
-    by_cases e1 : s.isEmpty = true
-    · rw [if_pos e1] at h1; exact absurd rfl h1
-    rw [if_neg e1] at h1
-    by_cases e2 : (s == ['~'] || eqIgnoreAsciiCase s "null".toList || eqIgnoreAsciiCase s "true".toList
-        || eqIgnoreAsciiCase s "false".toList) = true
-    · rw [if_pos e2] at h1; exact absurd rfl h1
-    simp only [Bool.or_eq_true, not_or, Bool.not_eq_true] at e2
-    simp only [scalarIsNullish, Bool.and_eq_false_iff, Bool.or_eq_false_iff]
-    right
-    exact ⟨⟨by simpa using e1, e2.1.1.1⟩, e2.1.1.2⟩
-  unfold resolve
-  rw [hn, hb]
-  simp only [Bool.false_eq_true, if_false]
-  constructor <;> (split <;> (try split) <;> simp)
-
-/-- (T, partial) document level — the headline statement for plain style. In every position whose
-layout does not depend on the indentation step (root, map value, map key, seq item, FlowSeq item, FlowMap
-value, FlowMap key, enum newtype payload, seq in seq), without the `%YAML` preamble: if the writer
-decides *plain*, then what it wrote reads back as the same plain scalar — PROVIDED
-* `hblank`: the string does not end in a space,
-* `hmark`: it is not a document-marker look-alike at column 0 (root / block key),
-* `hbom`: it does not start with U+FEFF at the start of the stream,
-* `hdash`: in flow context it does not end in space + `-`.
-(The merge key `<<` and number look-alikes read back as the same TEXT but with another meaning: see
-`merge_key_counterexample`, `number_lookalike_counterexample`.) -/
-theorem plain_roundtrip_partial (o : Opts) (p : SerScalar.Pos) (s : List Char)
-    (hp : simplePos (toRead p) = true) (hy : o.yaml12 = false) (hw : writerPlain o p s)
-    (hblank : s.getLast? ≠ some ' ')
-    (hmark : posCol0 (toRead p) = true → isDocMarker (s ++ lineEnd (toRead p)) = false)
-    (hbom : posCol0 (toRead p) = true → s.head? ≠ some (Char.ofNat 0xFEFF))
-    (hdash : (toRead p).isFlow = true → ¬ [' ', '-'] <:+ s) :
+/-- (T) `plain_roundtrip`, document level, FULL: in every position whose layout does not depend on the
+indentation step (root, map value, map key, seq item, FlowSeq item, FlowMap value, FlowMap key, enum
+newtype payload, seq in seq), under EVERY option vector (including `yaml_12`, whose preamble now carries
+`---`): if the writer decides *plain* for `s`, what it wrote reads back as the same plain scalar. No
+excluding hypothesis: trailing blanks, document-marker look-alikes, a leading U+FEFF and `… -` in flow
+context are quoted by the writer itself (`is_unsafe_plain_shape`, b4ece9d). -/
+theorem plain_roundtrip (o : Opts) (p : SerScalar.Pos) (s : List Char)
+    (hp : simplePos (toRead p) = true) (hw : writerPlain o p s) :
     roundTrip o p s = some (.plain, s) := by
   unfold roundTrip
-  rw [emit_plain o p hp s hy hw]
+  rw [emit_plain o p hp s hw]
   simp only
   unfold writerPlain at hw
-  by_cases hk : isKeyPos p = true
-  · rw [if_pos hk] at hw
-    simp only [Bool.and_eq_true] at hw
-    exact readDoc_plain (toRead p) hp s o.yaml12 true hw.2 (fun _ => rfl) hblank hdash hmark hbom
-  · rw [if_neg hk] at hw
-    exact readDoc_plain (toRead p) hp s o.yaml12 (toRead p).isFlow hw.2.2.1 (fun h => h) hblank hdash hmark hbom
+  have hbody : readDocBody (toRead p) (opening (toRead p) ++ (s ++ lineEnd (toRead p))) = some (.plain, s) ∧
+      headRejects s = false ∧ isUnsafePlainShape s = false := by
+    by_cases hk : isKeyPos p = true
+    · rw [if_pos hk] at hw
+      simp only [Bool.and_eq_true, Bool.not_eq_true'] at hw
+      exact ⟨readDocBody_plain (toRead p) hp s o.yaml12 true hw.1.2 (fun _ => rfl) hw.2, (pvs_unfold hw.1.2).2.1, hw.2⟩
+    · rw [if_neg hk] at hw
+      exact ⟨readDocBody_plain (toRead p) hp s o.yaml12 (toRead p).isFlow hw.2.2.1 (fun h => h) hw.2.2.2.1,
+        (pvs_unfold hw.2.2.1).2.1, hw.2.2.2.1⟩
+  obtain ⟨hb, hhead, hu⟩ := hbody
+  cases hs : s with
+  | nil => rw [hs] at hhead; simp [headRejects] at hhead
+  | cons c r =>
+    rw [hs] at hb hhead hu
+    obtain ⟨_, hpct⟩ := head_facts hhead
+    have hbom : c ≠ Char.ofNat 0xFEFF := by
+      have := (unsafe_shape_facts hu).2.1
+      simpa using this
+    obtain ⟨hh1, hh2⟩ := opening_head (toRead p) c (r ++ lineEnd (toRead p)) hpct hbom
+    rw [show opening (toRead p) ++ (c :: r ++ lineEnd (toRead p)) = opening (toRead p) ++ c :: (r ++ lineEnd (toRead p)) from rfl]
+    rw [readDoc_frame o (toRead p) _ hh1 hh2]
+    exact hb
 
-/-! ## (F) counterexamples: the excluded classes are real — the writer decides plain, the value is lost.
-Each witness is also an oracle class of the differential run (`scalarrt.oracle.jsonl`). -/
+/-- (T) `plain_meaning`, FULL for YAML 1.1 mode: a string the writer leaves plain (any position) still
+MEANS a string to the crate's reader: not null, not a boolean, not a number (1fdb06b: whatever the
+crate's own integer / float readers accept is quoted), not a merge key. -/
+theorem plain_meaning (o : Opts) (p : SerScalar.Pos) (s : List Char) (hy : o.yaml12 = false)
+    (hw : writerPlain o p s) : plainMeaning (isKeyPos p) s = .str := by
+  have hamb : isAmbiguousValue s false = false := by
+    unfold writerPlain at hw
+    by_cases hk : isKeyPos p = true
+    · rw [if_pos hk] at hw
+      simp only [Bool.and_eq_true] at hw
+      have := (pvs_unfold hw.1.2).1
+      rwa [hy] at this
+    · rw [if_neg hk] at hw
+      have := (pvs_unfold hw.2.2.1).1
+      rwa [hy] at this
+  obtain ⟨ha, hbool⟩ := not_ambiguous_value_facts hamb
+  obtain ⟨_, hmk, hnull, hnum⟩ := not_ambiguous_facts ha
+  have hb := hbool rfl
+  simp only [readsAsNumber, Bool.or_eq_false_iff] at hnum
+  have hmerge : isMergeKey s = false := by
+    simp only [isMergeKey]; simpa using hmk
+  unfold plainMeaning
+  rw [hmerge, Bool.and_false]
+  simp only [Bool.false_eq_true, if_false]
+  unfold resolve isYamlFloatText
+  rw [hnull, hb, hnum.1.1, hnum.1.2, hnum.2]
+  rfl
 
-/-- (F) trailing blank: `"abc "` is emitted plain and reads back as `"abc"` -/
-theorem trailing_blank_counterexample :
-    writerPlain {} .root "abc ".toList ∧ roundTrip {} .root "abc ".toList = some (.plain, "abc".toList) ∧
-    roundTrip {} .mapKey "abc ".toList = some (.plain, "abc".toList) ∧
-    roundTrip {} .flowSeq "abc ".toList = some (.plain, "abc".toList) := by
-  refine ⟨?_, ?_, ?_, ?_⟩ <;> decide
+/-- (T) … and under `yaml_12: true` everything except the boolean clause: never null, a number or a merge
+key -/
+theorem plain_meaning_yaml12 (o : Opts) (p : SerScalar.Pos) (s : List Char) (hw : writerPlain o p s) :
+    plainMeaning (isKeyPos p) s = .str ∨ plainMeaning (isKeyPos p) s = .bool := by
+  have hamb : isAmbiguous s = false := by
+    unfold writerPlain at hw
+    by_cases hk : isKeyPos p = true
+    · rw [if_pos hk] at hw
+      simp only [Bool.and_eq_true] at hw
+      exact (not_ambiguous_value_facts (pvs_unfold hw.1.2).1).1
+    · rw [if_neg hk] at hw
+      exact (not_ambiguous_value_facts (pvs_unfold hw.2.2.1).1).1
+  obtain ⟨_, hmk, hnull, hnum⟩ := not_ambiguous_facts hamb
+  simp only [readsAsNumber, Bool.or_eq_false_iff] at hnum
+  have hmerge : isMergeKey s = false := by
+    simp only [isMergeKey]; simpa using hmk
+  unfold plainMeaning
+  rw [hmerge, Bool.and_false]
+  simp only [Bool.false_eq_true, if_false]
+  unfold resolve isYamlFloatText
+  rw [hnull, hnum.1.1, hnum.1.2, hnum.2]
+  cases (parseYaml11Bool s).isSome <;> simp
 
-/-- (F) document markers at column 0: root `---`, `...`, `--- a`, key `--- a` are emitted plain and do not
-read back as that scalar -/
-theorem doc_marker_counterexample :
-    writerPlain {} .root "---".toList ∧ roundTrip {} .root "---".toList = none ∧
-    roundTrip {} .root "...".toList = none ∧ roundTrip {} .root "--- a".toList = none ∧
-    writerPlain {} .mapKey "--- a".toList ∧ roundTrip {} .mapKey "--- a".toList = none := by
-  refine ⟨?_, ?_, ?_, ?_, ?_, ?_⟩ <;> decide
+/-- the meaning clause at full strength over ALL option vectors — still false, see the residue below -/
+def plain_meaning_Full : Prop :=
+  ∀ (o : Opts) (p : SerScalar.Pos) (s : List Char), writerPlain o p s → plainMeaning (isKeyPos p) s = .str
 
-/-- (F) merge key: the key `<<` is emitted plain; the text survives but it now MEANS a merge key -/
-theorem merge_key_counterexample :
-    writerPlain {} .mapKey "<<".toList ∧ roundTrip {} .mapKey "<<".toList = some (.plain, "<<".toList) ∧
-    plainMeaning true "<<".toList = .mergeKey ∧ writerPlain {} .flowMapKey "<<".toList := by
-  refine ⟨?_, ?_, ?_, ?_⟩ <;> decide
+/-! ## (F) the residue that is still failing -/
 
-/-- (F) leading U+FEFF at the start of the stream is taken as a byte-order mark -/
-theorem leading_bom_counterexample :
-    writerPlain {} .root [Char.ofNat 0xFEFF, 'a'] ∧
-    roundTrip {} .root [Char.ofNat 0xFEFF, 'a'] = some (.plain, ['a']) ∧
-    roundTrip {} .mapKey [Char.ofNat 0xFEFF, 'a'] = some (.plain, ['a']) := by
-  refine ⟨?_, ?_, ?_⟩ <;> decide
-
-/-- (F, new) flow context: a plain scalar ending in space + `-` is followed by `]` / `}` / `,` and the
-scanner rejects "`-` followed by a flow indicator" -/
-theorem flow_blank_dash_counterexample :
-    writerPlain {} .flowSeq "a -".toList ∧ roundTrip {} .flowSeq "a -".toList = none ∧
-    roundTrip {} .flowMapValue "a -".toList = none := by
-  refine ⟨?_, ?_, ?_⟩ <;> decide
-
-/-- (F, new) `yaml_12: true`: every document starts with a `%YAML 1.2` directive that is not followed by
-`---`; the reader rejects the whole document, whatever the value -/
-theorem yaml12_directive_counterexample :
-    roundTrip { yaml12 := true } .root "a".toList = none ∧
-    emitDoc { yaml12 := true } .root "a".toList = .ok "%YAML 1.2\na\n".toList := by
-  refine ⟨?_, ?_⟩ <;> decide
-
-/-- (F, new) number look-alikes: accepted as plain by the value test, but the crate's own reader
-resolves them as numbers (upper-case radix prefix, leading `_`, `infinity`, signed `nan`, a number
-wrapped in Unicode blanks) -/
-theorem number_lookalike_counterexample :
-    (isPlainValueSafe "0X1F".toList false false = true ∧ resolve "0X1F".toList = .int) ∧
-    (isPlainValueSafe "_1".toList false false = true ∧ resolve "_1".toList = .int) ∧
-    (isPlainValueSafe "infinity".toList false false = true ∧ resolve "infinity".toList = .float) ∧
-    (isPlainValueSafe "+nan".toList false false = true ∧ resolve "+nan".toList = .float) ∧
-    (isPlainValueSafe ['1', Char.ofNat 0x2028] false false = true ∧ resolve ['1', Char.ofNat 0x2028] = .int) := by
-  refine ⟨⟨?_, ?_⟩, ⟨?_, ?_⟩, ⟨?_, ?_⟩, ⟨?_, ?_⟩, ⟨?_, ?_⟩⟩ <;> decide
-
-/-- (F, new) `yaml_12: true` leaves the YAML 1.1 boolean words plain; the (default, non-strict) reader
-resolves them as booleans -/
-theorem yaml12_bool_counterexample :
-    isPlainValueSafe "yes".toList true false = true ∧ resolve "yes".toList = .bool := by
-  constructor <;> decide
-
-/-- (F, new) automatic literal style with a carriage return: the reader takes `\r` as a line break -/
-theorem block_cr_counterexample :
-    roundTrip { foldedWrap := 1 } .root "a\rb\n".toList = none ∧
-    roundTrip { foldedWrap := 1 } .mapValue "a\r\nb".toList = some (.literal, "a\nb".toList) := by
-  constructor <;> decide
-
-/-- (F, new) automatic literal style for a string of line breaks only: `"\n\n"` is written `|+` with ONE
-empty line and reads back as `"\n"` (with the default `folded_wrap_chars = 80`: 81 line breaks) -/
-theorem block_only_newlines_counterexample :
-    roundTrip { foldedWrap := 1 } .root "\n\n".toList = some (.literal, "\n".toList) ∧
-    roundTrip { foldedWrap := 1 } .seqItem "\n\n\n".toList = some (.literal, "\n".toList) := by
-  constructor <;> decide
-
-/-- (F, new) the indentation indicator is written as the ABSOLUTE column of the body, but YAML counts
-it from the parent node: wrong in every nested position -/
-theorem block_indicator_nested_counterexample :
-    emitDoc { foldedWrap := 1 } .nestedMapValue " a\nb".toList = .ok "a:\n  k: |4-\n     a\n    b\n".toList ∧
-    roundTrip { foldedWrap := 1 } .nestedMapValue " a\nb".toList = none ∧
-    roundTrip { foldedWrap := 1 } .seqInMap " a\nb".toList = none ∧
-    roundTrip { foldedWrap := 1 } .seqInSeq " a\nb".toList = none ∧
-    roundTrip { foldedWrap := 1 } .mapValue " a\nb".toList = some (.literal, " a\nb".toList) := by
+/-- (F) `yaml_12: true` leaves the YAML 1.1 boolean words plain (on purpose: `y` coordinates …), the
+document reads back as the same text, but the crate's default (non `strict_booleans`) reader resolves
+the word as a boolean: "no string is ever emitted in a form that reads back as … a boolean" fails for
+schema-less targets under this option. Oracle id `C12-yaml12-bool-word-plain`. -/
+theorem yaml12_bool_word_counterexample :
+    writerPlain { yaml12 := true } .root "yes".toList ∧
+    roundTrip { yaml12 := true } .root "yes".toList = some (.plain, "yes".toList) ∧
+    plainMeaning false "yes".toList = .bool ∧
+    writerPlain { yaml12 := true } .mapValue "n".toList ∧ plainMeaning false "n".toList = .bool := by
   refine ⟨?_, ?_, ?_, ?_, ?_⟩ <;> decide
 
-/-- (F, new) `indent_step: 1`, sequence in sequence: the body of a block scalar after `- - ` is indented
-2 columns, which is not deeper than the inner sequence -/
-theorem seq_in_seq_step1_counterexample :
-    emitDoc { indentStep := 1, foldedWrap := 1 } .seqInSeq "a\nb".toList = .ok "- - |-\n  a\n  b\n".toList ∧
-    roundTrip { indentStep := 1, foldedWrap := 1 } .seqInSeq "a\nb".toList ≠ some (.literal, "a\nb".toList) := by
-  constructor <;> decide
+/-! ## regression examples: the repaired classes (former (F) witnesses) now read back -/
 
-/-- the full statement is refuted by the witnesses above -/
-theorem plain_roundtrip_Full_false : ¬ plain_roundtrip_Full := by
-  intro h
-  have := (h {} .root "abc ".toList trailing_blank_counterexample.1).1
-  rw [trailing_blank_counterexample.2.1] at this
-  revert this; decide
+-- b4ece9d: trailing blank
+example : roundTrip {} .root "abc ".toList = some (.double, "abc ".toList) ∧
+    roundTrip {} .mapKey "abc ".toList = some (.double, "abc ".toList) ∧
+    roundTrip {} .flowSeq "abc ".toList = some (.double, "abc ".toList) ∧ ¬ writerPlain {} .root "abc ".toList := by
+  refine ⟨?_, ?_, ?_, ?_⟩ <;> decide
+-- b4ece9d: document markers at column 0
+example : roundTrip {} .root "---".toList = some (.double, "---".toList) ∧
+    roundTrip {} .root "...".toList = some (.double, "...".toList) ∧
+    roundTrip {} .root "--- a".toList = some (.double, "--- a".toList) ∧
+    roundTrip {} .mapKey "--- a".toList = some (.double, "--- a".toList) ∧
+    roundTrip {} .root "---a".toList = some (.plain, "---a".toList) := by
+  refine ⟨?_, ?_, ?_, ?_, ?_⟩ <;> decide
+-- b4ece9d: merge key
+example : roundTrip {} .mapKey "<<".toList = some (.double, "<<".toList) ∧
+    roundTrip {} .flowMapKey "<<".toList = some (.double, "<<".toList) ∧ ¬ writerPlain {} .mapKey "<<".toList := by
+  refine ⟨?_, ?_, ?_⟩ <;> decide
+-- b4ece9d: leading U+FEFF
+example : roundTrip {} .root [Char.ofNat 0xFEFF, 'a'] = some (.double, [Char.ofNat 0xFEFF, 'a']) ∧
+    roundTrip {} .mapKey [Char.ofNat 0xFEFF, 'a'] = some (.double, [Char.ofNat 0xFEFF, 'a']) ∧
+    roundTrip {} .mapValue [Char.ofNat 0xFEFF, 'a'] = some (.double, [Char.ofNat 0xFEFF, 'a']) := by
+  refine ⟨?_, ?_, ?_⟩ <;> decide
+-- b4ece9d: blank + `-` at the end in flow context (still plain in block context)
+example : roundTrip {} .flowSeq "a -".toList = some (.double, "a -".toList) ∧
+    roundTrip {} .flowMapValue "a -".toList = some (.double, "a -".toList) ∧
+    roundTrip {} .seqItem "a -".toList = some (.plain, "a -".toList) := by
+  refine ⟨?_, ?_, ?_⟩ <;> decide
+-- 832e31b: the `%YAML 1.2` preamble carries the document start marker
+example : emitDoc { yaml12 := true } .root "a".toList = .ok "%YAML 1.2\n---\na\n".toList ∧
+    roundTrip { yaml12 := true } .root "a".toList = some (.plain, "a".toList) ∧
+    roundTrip { yaml12 := true } .mapKey "a b".toList = some (.plain, "a b".toList) ∧
+    roundTrip { yaml12 := true, foldedWrap := 1 } .seqItem "x\ny".toList = some (.literal, "x\ny".toList) := by
+  refine ⟨?_, ?_, ?_, ?_⟩ <;> decide
+-- 1fdb06b: number look-alikes are quoted
+example : roundTrip {} .root "0X1F".toList = some (.double, "0X1F".toList) ∧
+    roundTrip {} .root "_1".toList = some (.double, "_1".toList) ∧
+    roundTrip {} .root "infinity".toList = some (.double, "infinity".toList) ∧
+    roundTrip {} .root "+nan".toList = some (.double, "+nan".toList) ∧
+    roundTrip {} .root ['1', Char.ofNat 0x2028] = some (.double, ['1', Char.ofNat 0x2028]) ∧
+    isAmbiguous "0X1F".toList = true := by
+  refine ⟨?_, ?_, ?_, ?_, ?_, ?_⟩ <;> decide
+-- a252cf9: CR / NUL / line breaks only are not sent to the literal style any more
+example : roundTrip { foldedWrap := 1 } .root "a\rb\n".toList = some (.double, "a\rb\n".toList) ∧
+    roundTrip { foldedWrap := 1 } .mapValue "a\r\nb".toList = some (.double, "a\r\nb".toList) ∧
+    roundTrip { foldedWrap := 1 } .root ['a', Char.ofNat 0, '\n', 'b'] = some (.double, ['a', Char.ofNat 0, '\n', 'b']) ∧
+    roundTrip { foldedWrap := 1 } .root "\n\n".toList = some (.double, "\n\n".toList) ∧
+    roundTrip { foldedWrap := 1 } .seqItem "\n\n\n".toList = some (.double, "\n\n\n".toList) := by
+  refine ⟨?_, ?_, ?_, ?_, ?_⟩ <;> decide
+-- a252cf9: no indentation indicator below a nested parent, no block scalar after `- - ` with indent_step 1
+example : roundTrip { foldedWrap := 1 } .nestedMapValue " a\nb".toList = some (.double, " a\nb".toList) ∧
+    roundTrip { foldedWrap := 1 } .seqInMap " a\nb".toList = some (.double, " a\nb".toList) ∧
+    roundTrip { foldedWrap := 1 } .seqInSeq " a\nb".toList = some (.double, " a\nb".toList) ∧
+    roundTrip { foldedWrap := 1 } .mapValue " a\nb".toList = some (.literal, " a\nb".toList) ∧
+    roundTrip { foldedWrap := 1 } .nestedMapValue "a\nb".toList = some (.literal, "a\nb".toList) ∧
+    roundTrip { indentStep := 1, foldedWrap := 1 } .seqInSeq "a\nb".toList = some (.double, "a\nb".toList) ∧
+    roundTrip { indentStep := 2, foldedWrap := 1 } .seqInSeq "a\nb".toList = some (.literal, "a\nb".toList) := by
+  refine ⟨?_, ?_, ?_, ?_, ?_, ?_, ?_⟩ <;> decide
 
 /-! ## block scalars -/
 
@@ -279,19 +281,16 @@ theorem literal_block_roundtrip (N : Nat) (parent : Int) (v : List Char) (hN : 1
       (litLines N v) = some (v, []) :=
   literal_read N parent v hN hcontent hauto hexpl
 
-/-- (T, partial) document level: whenever the writer selects the automatic literal style at the root,
-as a map value, as a sequence item or as an enum newtype payload, the document reads back as the same
-string — PROVIDED the string contains no `\r` and no U+0000, is not made of line breaks only, and the
-indentation indicator (if one is needed) is a single digit. The excluded classes are real:
-`block_cr_counterexample`, `block_only_newlines_counterexample`; nested positions:
-`block_indicator_nested_counterexample`, `seq_in_seq_step1_counterexample`. -/
+/-- (T) `literal_roundtrip`, document level, FULL: whenever the writer emits the automatic literal style
+(`writerLiteral`: the selection, and no fall-back to quoting for a two-digit indicator) at the root, as a
+map value, as a sequence item or as an enum newtype payload, under every option vector, the document
+reads back as the same string. No excluding hypothesis: since a252cf9 the writer itself does not send
+strings with CR / NUL / other controls or made of line breaks only to the literal style
+(`autoStyle_literal_facts`). -/
 theorem literal_roundtrip (o : Opts) (p : SerScalar.Pos) (v : List Char) (hp : blockSimplePos p = true)
-    (hy : o.yaml12 = false) (hstep : 1 ≤ o.indentStep)
-    (hauto : autoStyle o false v = some .literal) (hcontent : trimEndNl v ≠ [])
-    (hchars : ∀ c ∈ v, c ≠ '\r' ∧ isNul c = false)
-    (hdig : needsInd v = true → o.indentStep ≤ 9) :
+    (hstep : 1 ≤ o.indentStep) (hw : writerLiteral o v) :
     roundTrip o p v = some (.literal, v) := by
-  obtain ⟨t, h1, h2⟩ := literal_doc o p v hp hy hstep hauto hcontent hchars hdig
+  obtain ⟨t, h1, h2⟩ := literal_doc o p v hp hstep hw
   unfold roundTrip
   rw [h1]
   exact h2
@@ -318,24 +317,12 @@ passes the value test and is longer than `folded_wrap_chars`) at the root, as a 
 item or as an enum newtype payload, the document reads back as the same string. No excluding hypothesis
 is needed: in particular a trailing blank survives in a block scalar. -/
 theorem auto_folded_roundtrip (o : Opts) (p : SerScalar.Pos) (v : List Char) (hp : blockSimplePos p = true)
-    (hy : o.yaml12 = false) (hstep : 1 ≤ o.indentStep) (hauto : autoStyle o false v = some .folded) :
+    (hstep : 1 ≤ o.indentStep) (hauto : autoStyle o false v = some .folded) :
     roundTrip o p v = some (.folded, v) := by
-  obtain ⟨t, h1, h2⟩ := folded_doc o p v hp hy hstep hauto
+  obtain ⟨t, h1, h2⟩ := folded_doc o p v hp hstep hauto
   unfold roundTrip
   rw [h1]
   exact h2
-
-/-- the literal round trip at full strength (all positions, all strings the writer sends to the literal
-style): FALSE, see the block counterexamples -/
-def literal_roundtrip_Full : Prop :=
-  ∀ (o : Opts) (p : SerScalar.Pos) (v : List Char), o.yaml12 = false → 1 ≤ o.indentStep →
-    autoStyle o (toRead p).isFlow v = some .literal → roundTrip o p v = some (.literal, v)
-
-theorem literal_roundtrip_Full_false : ¬ literal_roundtrip_Full := by
-  intro h
-  have := h { foldedWrap := 1 } .root "\n\n".toList rfl (by decide) (by decide)
-  rw [block_only_newlines_counterexample.1] at this
-  revert this; decide
 
 /-! ## floats -/
 
